@@ -108,6 +108,14 @@ impl Check for C14 {
                                 one(run, si, l, "fill_rect-vs-path-fill-aliased", Scene { w, h, dst: dst.clone(), ops: vec![fast_n.clone()] }, Scene { w, h, dst: dst.clone(), ops: vec![general_n] }, false);
                                 one(run, si, l, "fill_rect-vs-under-covering-clip-aliased", Scene { w, h, dst: dst.clone(), ops: vec![fast_n.clone()] }, Scene { w, h, dst: dst.clone(), ops: vec![cover_clip(w, h), fast_n, Op::PopClip] }, false);
                             }
+                            // on a target made by from_backing (the surface is not square: whatever the
+                            // constructor hands on with width and height exchanged shows)
+                            if ri % 5 == si % 5 {
+                                let bd = Dst::Backing(Box::new(dst.clone()));
+                                let general_b = Op::Fill(PathSpec::rect(x as f32, y as f32, rw as f32, rh as f32), src.clone(), o);
+                                one(run, si, l, "fill_rect-vs-path-fill-from_backing", Scene { w, h, dst: bd.clone(), ops: vec![fast.clone()] }, Scene { w, h, dst: bd.clone(), ops: vec![general_b] }, false);
+                                one(run, si, l, "fill_rect-vs-under-covering-clip-from_backing", Scene { w, h, dst: bd.clone(), ops: vec![fast.clone()] }, Scene { w, h, dst: bd, ops: vec![cover_clip(w, h), fast.clone(), Op::PopClip] }, false);
+                            }
                             // the same equivalence while drawing into a layer: a full-size one, and one
                             // narrower than the surface whose outer clip has been popped again ("no clip")
                             if ri % 7 == (si % 7) {
